@@ -11,6 +11,7 @@ import (
 	dtlsflight "github.com/pion/dtls/v3/internal/flight"
 	"github.com/pion/dtls/v3/internal/negotiation"
 	dtlsstate "github.com/pion/dtls/v3/internal/state"
+	"github.com/pion/dtls/v3/pkg/crypto/elliptic"
 	"github.com/pion/dtls/v3/pkg/protocol"
 	"github.com/pion/dtls/v3/pkg/protocol/alert"
 	"github.com/pion/dtls/v3/pkg/protocol/handshake"
@@ -58,6 +59,22 @@ func flight2Parse(
 		return 0, &alert.Alert{Level: alert.Fatal, Description: alert.IllegalParameter}, err
 	}
 	state.RemoteClientHelloSnapshots = snapshots
+
+	// Negotiate from the ClientHello that enters the Finished transcript. The
+	// first, cookie-less ClientHello is not covered by it (RFC 6347 Section
+	// 4.2.1) and extensions may differ between the two, so state derived from
+	// the first one could be steered by an on-path attacker unnoticed.
+	curve := state.NamedCurve
+	if dtlsAlert, err := applyClientHelloExtensions(state, cfg, clientHello); err != nil {
+		return 0, dtlsAlert, err
+	}
+	if state.NamedCurve != curve {
+		keypair, err := elliptic.GenerateKeypair(state.NamedCurve)
+		if err != nil {
+			return 0, &alert.Alert{Level: alert.Fatal, Description: alert.IllegalParameter}, err
+		}
+		state.LocalKeypair = keypair
+	}
 
 	return Flight4, nil, nil
 }
